@@ -357,4 +357,10 @@ def check(ctx, rep):
 
     rule_line_unit(ctx, rep)
     rule_shared(ctx, rep)
+    from .c09 import rule_no_shared_mutable_default
+
+    rule_no_shared_mutable_default(ctx, rep)
+    from .c03 import rule_codec_agree
+
+    rule_codec_agree(ctx, rep)
     rep.not_covered += ["XML infoset equality through expat / XMLGenerator", "locator column arithmetic", "byte identity of untouched lines beyond 'the line itself is appended'"]
